@@ -217,3 +217,5 @@ func dirTree(db string) []string {
 	})
 	return out
 }
+
+func timeUnixUTC(ts int64) time.Time { return time.Unix(ts, 0).UTC() }
